@@ -21,6 +21,7 @@ import (
 	"strings"
 	"testing"
 
+	"github.com/XiaoMi/Gaea/models"
 	kit "github.com/XiaoMi/Gaea/verifkit"
 	"github.com/XiaoMi/Gaea/verifkit/mycli"
 )
@@ -90,12 +91,25 @@ var c21LeadText = map[string]string{"none": "", "block": "/* c */ ", "block_tigh
 var c21GapText = map[string]string{"space": " ", "nl": "\n", "tab": "\t", "comment": "/**/", "comment_sp": " /* g */ ",
 	"hint_tight": "/*+ SET_VAR(sort_buffer_size=262144) */", "hint_sp": " /*+ SET_VAR(sort_buffer_size=262144) */ "}
 
+func c21DimVals(name string) []string {
+	for _, d := range c21Dims {
+		if d.Name == name {
+			return d.Vals
+		}
+	}
+	return nil
+}
+
 const c21Control = "select 7"
 
 type c21Case struct {
 	Kind string            `json:"kind"`
 	D    map[string]string `json:"dims"` // dimension -> value (absent = default)
 	Text string            `json:"text,omitempty"`
+	// reload histories: the rw_flag history of the user ("rw>ro", ...) and whether the session
+	// was connected before the last reload (stale) or after it (fresh); "" = no reload involved
+	History string `json:"history,omitempty"`
+	Session string `json:"session,omitempty"`
 }
 
 func (c c21Case) get(dim string) string {
@@ -199,10 +213,27 @@ type c21Harness struct {
 	sess map[string]*rwSession
 }
 
+// c21NS is the namespace of the C21 rig: rwNamespace plus two users whose rw_flag is changed
+// by online reloads while their sessions stay connected (flip starts read-write, flop starts
+// read-only).
+func c21NS(flipReadOnly, flopReadOnly bool) *models.Namespace {
+	ns := rwNamespace("ns21", true)
+	flag := func(ro bool) int {
+		if ro {
+			return models.ReadOnly
+		}
+		return models.ReadWrite
+	}
+	ns.Users = append(ns.Users,
+		rigUser("ns21", "ns21_flip", "pw_flip", flag(flipReadOnly), models.NoReadWriteSplit),
+		rigUser("ns21", "ns21_flop", "pw_flop", flag(flopReadOnly), models.ReadWriteSplit))
+	return ns
+}
+
 func c21NewHarness(t *testing.T) *c21Harness {
 	h := &c21Harness{t: t, sess: map[string]*rwSession{}}
-	h.r = rigStart(t, rigOpts{Namespaces: rwNSList(rwNamespace("ns21", true)), FakePools: true})
-	for _, u := range []string{"ro", "ro2", "rw"} {
+	h.r = rigStart(t, rigOpts{Namespaces: rwNSList(c21NS(false, true)), FakePools: true})
+	for _, u := range []string{"ro", "ro2", "rw", "flip", "flop"} {
 		s, err := rwOpen(h.r, "ns21", u, "db")
 		if err != nil {
 			h.r.Close()
@@ -296,7 +327,7 @@ func TestVerif_C21(t *testing.T) {
 	rec := kit.Start("C21", "exploration",
 		"case = statement kind (20 modifying kinds: INSERT x5, REPLACE x2, UPDATE x2, DELETE x2, CREATE TABLE/INDEX, ALTER, DROP TABLE/INDEX, TRUNCATE x2, RENAME, LOAD DATA; 5 SELECT/SHOW controls) x decorations "+
 			"{lead comment/white space (6), keyword case (3), gap between first keyword and next token (7: blank, newline, tab, glued /**/, spaced comment, optimizer hint glued/spaced), /*! */ wrapper (3), trailing comment (2)} "+
-			"x channel {query, multi-statement piece after/before a control, prepare+execute, prepare+execute with parameters} x read-only user {with, without rw-split} x {no tx, BEGIN, autocommit=0}; "+
+			"x channel {query, multi-statement piece after/before a control, prepare+execute, prepare+execute with parameters} x read-only user {with, without rw-split} x {no tx, BEGIN, autocommit=0}; plus configuration-change histories (online reload flips a connected user's rw_flag rw>ro, ro>rw>ro, rw>ro>rw>ro; every modifying kind x channel on the stale and on a fresh session); "+
 			"thorough enumerates the product (tx only on single-decoration cases); non-trivial = the same text sent by a read-write user reaches a master")
 	defer rec.Finish(t)
 	rec.Assume("decorations are semantically neutral for MySQL by construction; no comment is nested inside a /*! */ wrapper")
@@ -434,6 +465,127 @@ func TestVerif_C21(t *testing.T) {
 		rec.Violation(fmt.Sprintf("C21/%s/%s/%s", v.Clause, k.KW, min.decoKey()), mv.What, min)
 	}
 
+	// ---- configuration-change histories: the user's rw_flag is changed by online reloads
+	// (rig.Reload = ReloadNamespacePrepare + Commit on the real Manager) while a session of that
+	// user stays connected. The property speaks of a user CONFIGURED read-only, so the judge is
+	// the configuration in force when the statement is sent: while it says read-only, the
+	// modifying statement must be refused with zero pool gets, on the session that was
+	// connected before the change (stale) and on a new one (fresh). No claim while it says
+	// read-write (only counted).
+	reloadPhase := func() {
+		var cases []c21Case
+		for _, k := range c21Kinds {
+			if !k.Write {
+				continue
+			}
+			for _, ch := range c21DimVals("channel") {
+				base := c21Case{Kind: k.Name, D: map[string]string{}}.with("channel", ch)
+				if base.valid() {
+					cases = append(cases, base)
+				}
+				if kit.Tier() == "thorough" {
+					for _, d := range []string{"lead", "case", "gap", "wrap", "trail"} {
+						for _, v := range c21DimVals(d)[1:] {
+							if c := base.with(d, v); c.valid() {
+								cases = append(cases, c)
+							}
+						}
+					}
+				}
+			}
+		}
+		check := func(user, history, session string) {
+			for _, c := range cases {
+				if ioFail {
+					return
+				}
+				rec.Eval(1)
+				rec.Count("reload.must_refuse_cases", 1)
+				res := h.run(c, user)
+				if res.IOErr != "" {
+					rec.Inconclusive("reload phase: client I/O error " + res.IOErr)
+					ioFail = true
+					return
+				}
+				if isLive(c) {
+					rec.Nontrivial("reload|" + history + "|" + session + "|" + c.key())
+				}
+				clause := ""
+				switch {
+				case res.Gets > 0 || len(res.Execs) > 0:
+					clause = "backend-reached-after-reload"
+				case !res.ErrReply:
+					clause = "no-error-after-reload"
+				}
+				if clause == "" {
+					continue
+				}
+				w := c
+				w.History, w.Session = history, session
+				w.Text = c.text(c.get("channel") == "prepare_param")
+				rec.Violation(fmt.Sprintf("C21/%s/%s/history=%s,session=%s", clause, c.kind().KW, history, session),
+					fmt.Sprintf("user whose configuration went %s (now read-only), %s session, channel %s: %q -> replies [%s], backend gets %d on %v, execs %q",
+						history, session, c.get("channel"), w.Text, res.Replies, res.Gets, res.Roles, res.Execs), w)
+			}
+		}
+		noClaim := func(user string) {
+			served := 0
+			for _, c := range cases {
+				if res := h.run(c, user); !res.ErrReply && res.Gets > 0 {
+					served++
+				}
+			}
+			rec.Count("reload.served_while_read_write", int64(served))
+		}
+		fresh := func(user, history string) {
+			s, err := rwOpen(h.r, "ns21", user, "db")
+			if err != nil {
+				rec.Inconclusive("reload phase: cannot open a fresh session: " + err.Error())
+				ioFail = true
+				return
+			}
+			old := h.sess[user]
+			h.sess[user] = s
+			check(user, history, "fresh")
+			h.sess[user] = old
+			s.Close()
+		}
+		reload := func(flipRO, flopRO bool) bool {
+			if err := h.r.Reload(c21NS(flipRO, flopRO)); err != nil {
+				rec.Inconclusive("reload phase: Reload failed: " + err.Error())
+				ioFail = true
+				return false
+			}
+			rec.Count("reload.reloads", 1)
+			return true
+		}
+		// step 0: as connected (flip read-write, flop read-only)
+		noClaim("flip")
+		check("flop", "ro", "stale")
+		// R1: flip rw>ro, flop ro>rw
+		if !reload(true, false) {
+			return
+		}
+		check("flip", "rw>ro", "stale")
+		fresh("flip", "rw>ro")
+		noClaim("flop")
+		// R2: flip back to rw, flop back to ro
+		if !reload(false, true) {
+			return
+		}
+		noClaim("flip")
+		check("flop", "ro>rw>ro", "stale")
+		fresh("flop", "ro>rw>ro")
+		// R3
+		if !reload(true, false) {
+			return
+		}
+		check("flip", "rw>ro>rw>ro", "stale")
+		if rec.CounterValue("reload.served_while_read_write") == 0 && !ioFail {
+			rec.Inconclusive("reload phase: no modifying statement was ever served while the user was configured read-write")
+		}
+	}
+
 	if p := kit.ReplayPath(); p != "" {
 		var c c21Case
 		if err := kit.LoadReplay(p, &c); err != nil {
@@ -442,6 +594,13 @@ func TestVerif_C21(t *testing.T) {
 		}
 		if c.D == nil {
 			c.D = map[string]string{}
+		}
+		if c.History != "" {
+			fmt.Printf("REPLAY reload history %s/%s: running the whole reload phase\n", c.History, c.Session)
+			reloadPhase()
+			rec.Nontrivial(c.key() + "#replay")
+			rec.Sample(c)
+			return
 		}
 		c.Text = ""
 		v := eval(c)
@@ -531,6 +690,7 @@ func TestVerif_C21(t *testing.T) {
 			one(c)
 		}
 	}
+	reloadPhase()
 	rec.Set("distinct_cases_evaluated", len(cache))
 	if rec.CounterValue("liveness.live") == 0 {
 		rec.Inconclusive("no modifying statement was live for a read-write user: the rig observed nothing")
